@@ -154,6 +154,8 @@ deriving Repr, Inhabited
 
 structure Prod where
   packrat : Bool
+  /-- the function carries `#[packrat_parser]` twice: on a miss both wrappers insert the key (two queue entries) -/
+  packrat2 : Bool := false
   recursive : Bool
   body : PExpr
 deriving Repr, Inhabited
@@ -204,6 +206,11 @@ def Memo.insert (cap : Option Nat) (m : Memo) (k : MKey) (v : MVal) : Memo :=
       else m
     | none => m
   { m1 with keys := m1.keys ++ [k], tbl := m1.tbl.insert k v }
+
+/-- insertion by a function that carries the packrat attribute once (`twice = false`) or twice: the inner wrapper inserts,
+    then the outer wrapper inserts the same key and value again -/
+def Memo.insertW (cap : Option Nat) (twice : Bool) (m : Memo) (k : MKey) (v : MVal) : Memo :=
+  if twice then (m.insert cap k v).insert cap k v else m.insert cap k v
 
 def Memo.clear (_m : Memo) : Memo := { keys := [], tbl := {} }
 
@@ -468,7 +475,7 @@ def evalStmts (g : Grammar) (inp : Input) :
     | (.err ep, st') => ((.err ep, st'), [])
     | (.oof, st') => ((.oof, st'), [])
 
-/-- a production call: `#[packrat_parser]` outermost, `#[recursive_parser]` inside it -/
+/-- a production call: `#[packrat_parser]` (once or twice) outermost, `#[recursive_parser]` inside it -/
 def evalCall (g : Grammar) (inp : Input) : Nat → Nat → Nat → Rec → PState → Out × PState
   | 0, _, _, _, st => (.oof, st)
   | fuel + 1, f, pos, r, st =>
@@ -487,9 +494,9 @@ def evalCall (g : Grammar) (inp : Input) : Nat → Nat → Nat → Rec → PStat
       if p.packrat then
         match run with
         | (.ok q r' ts, st') =>
-          (.ok q r' ts, { st' with memo := st'.memo.insert g.memoCap (f, pos, decide (st'.dir > 0)) (some (ts, q - pos)) })
+          (.ok q r' ts, { st' with memo := st'.memo.insertW g.memoCap p.packrat2 (f, pos, decide (st'.dir > 0)) (some (ts, q - pos)) })
         | (.err ep, st') =>
-          (.err ep, { st' with memo := st'.memo.insert g.memoCap (f, pos, decide (st'.dir > 0)) none })
+          (.err ep, { st' with memo := st'.memo.insertW g.memoCap p.packrat2 (f, pos, decide (st'.dir > 0)) none })
         | (.oof, st') => (.oof, st')
       else run
 end
